@@ -200,6 +200,54 @@ Definition rpc_fund_account (s : fstate) (q : fund_req) : fstate * res N :=
                else ({| fbal := nb; frev := frev s + 1 |}, Ok amount)
     end.
 
+(** * RHP4 contractor interface (host/contracts/manager.go): the argument checks of
+   AddV2Contract, RenewV2Contract and ReviseV2Contract, for arguments of any shape *)
+Definition go_index (len i : N) : res unit := if i <? len then Ok tt else Panic.
+
+(* AddV2Contract(formation): number of transactions, file contracts in the last one *)
+Definition add_v2_contract (ntxns nfcLast : N) (storeOk : bool) : res unit :=
+  if ntxns =? 0 then Err EInvalid
+  else do _ <- go_index ntxns (ntxns - 1);
+       if negb (nfcLast =? 1) then Err EInvalid
+       else do _ <- go_index nfcLast 0;
+            if storeOk then Ok tt else Err EOther.
+
+(* RenewV2Contract(renewal): transactions, resolutions in the last one, whether the
+   resolution is a renewal, then the comparison with the existing contract *)
+Definition renew_v2_contract (ntxns nresLast : N) (isRenewal found fieldsOk rootsOk storeOk : bool) : res unit :=
+  if ntxns =? 0 then Err EInvalid
+  else do _ <- go_index ntxns (ntxns - 1);
+       if negb (nresLast =? 1) then Err EInvalid
+       else do _ <- go_index nresLast 0;
+            if negb isRenewal then Err EInvalid
+            else if negb found then Err ENotFound
+            else if negb fieldsOk then Err EInvalid
+            else if negb rootsOk then Err EInvalid
+            else if storeOk then Ok tt else Err EOther.
+
+Record revise4_req := {
+  r4Found : bool; r4Renewed : bool;
+  r4KeysOk : bool;           (* renter and host public key unchanged *)
+  r4HeightsOk : bool;        (* proof and expiration height unchanged *)
+  r4Filesize : N; r4Capacity : N;
+  r4Roots : list N;          (* new sector roots, any length *)
+  r4SigsOk : bool; r4RootOk : bool;   (* signatures, FileMerkleRoot = MetaRoot(newRoots) *)
+  r4StoreOk : bool;
+  r4Rev : N
+}.
+
+Definition revise_v2_contract (s : rstate) (q : revise4_req) : rstate * res unit :=
+  if negb (r4Found q) then (s, Err ENotFound)
+  else if r4Renewed q then (s, Err EInvalid)
+  else if negb (r4KeysOk q) then (s, Err EInvalid)
+  else if negb (r4HeightsOk q) then (s, Err EInvalid)
+  else if negb (r4Filesize q =? SectorSize * nroots (r4Roots q)) then (s, Err EInvalid)
+  else if r4Capacity q <? r4Filesize q then (s, Err EInvalid)
+  else if negb (r4SigsOk q) then (s, Err EInvalid)
+  else if negb (r4RootOk q) then (s, Err EInvalid)
+  else if negb (r4StoreOk q) then (s, Err EOther)
+  else ({| rrev := r4Rev q; rroots := r4Roots q |}, Ok tt).
+
 (** * correspondence entry point for handler-level sessions *)
 Inductive rop :=
 | RSetContract (rev : N) (roots : list N)
@@ -209,7 +257,10 @@ Inductive rop :=
 | RWrite (q : write_req)
 | RFormKey (alg : bool) (keylen : N)
 | RRenewCosts (base sp cp filesize curEnd newEnd : N)
-| RFund (q : fund_req).
+| RFund (q : fund_req)
+| RAddV2 (ntxns nfcLast : N) (storeOk : bool)
+| RRenewV2 (ntxns nresLast : N) (isRenewal found fieldsOk rootsOk storeOk : bool)
+| RReviseV2 (q : revise4_req).
 
 Inductive robs :=
 | RDone
@@ -239,6 +290,13 @@ Definition rstep (h : hs) (o : rop) : hs * robs :=
       (h, RRes (lift1 (form_renter_key alg keylen) (fun _ => [])) (rrev (hsC h)) (rroots (hsC h)))
   | RRenewCosts base sp cp fs ce ne =>
       (h, RRes (lift1 (renewal_costs base sp cp fs ce ne) (fun _ => [])) (rrev (hsC h)) (rroots (hsC h)))
+  | RAddV2 a b c =>
+      (h, RRes (lift1 (add_v2_contract a b c) (fun _ => [])) (rrev (hsC h)) (rroots (hsC h)))
+  | RRenewV2 a b c d e f g =>
+      (h, RRes (lift1 (renew_v2_contract a b c d e f g) (fun _ => [])) (rrev (hsC h)) (rroots (hsC h)))
+  | RReviseV2 q =>
+      let '(s', r) := revise_v2_contract (hsC h) q in
+      ({| hsC := s'; hsF := hsF h |}, RRes (lift1 r (fun _ => [])) (rrev s') (rroots s'))
   | RFund q =>
       let '(f', r) := rpc_fund_account (hsF h) q in
       ({| hsC := {| rrev := rrev (hsC h) + (frev f' - frev (hsF h)); rroots := rroots (hsC h) |}; hsF := f' |},
